@@ -209,6 +209,14 @@ def many_messages(rnd: random.Random) -> t.List[t.Any]:
         out.append(M.SearchResultReference(6, [], [f"ldap://h{j}/dc=x" for j in range(n)]))
         out.append(M.SearchResultDone(7, [], M.LDAPResult(M.LDAPResultCode(10), "", "", [f"ldap://h{j}/" for j in range(n)])))
         out.append(M.ExtendedResponse(8, ctl, ok, "1.2.3", bytes(n)))
+    # the flag controls of the library (Show Deleted, Show Deactivated Link) as a peer may send them: WITH a controlValue, empty
+    # or not, on every message kind that takes controls; decoding keeps the value, re-encoding reproduces it
+    for j, (oid, crit, val) in enumerate((("1.2.840.113556.1.4.417", True, b""), ("1.2.840.113556.1.4.417", False, b"x"), ("1.2.840.113556.1.4.2065", True, b"\x30\x00"),
+                                          ("1.2.840.113556.1.4.2065", False, b""), ("1.2.840.113556.1.4.417", True, None))):
+        fc = [s.LDAPControl(oid, crit, val)] if val is not None else [s.ShowDeletedControl(crit)]
+        out.append(M.SearchRequest(20 + j, fc + [s.LDAPControl("1.2.3", False, None)], "dc=x", M.SearchScope.SUBTREE, M.DereferencingPolicy.NEVER, 0, 0, False, s.FilterPresent("cn"), []))
+        out.append(M.SearchResultDone(30 + j, [s.PagedResultControl(False, 0, b"")] + fc, ok))
+        out.append(M.ExtendedRequest(40 + j, fc + fc, "1.2.3", None))
     # byte-identical members of a SET OF / SEQUENCE OF are members all the same (attribute values, and / or items, URIs)
     dup = s.FilterEquality("objectClass", b"person")
     out.append(M.SearchRequest(9, [], "dc=x", M.SearchScope.SUBTREE, M.DereferencingPolicy.NEVER, 0, 0, False, s.FilterAnd([dup, dup]), ["cn", "cn"]))
